@@ -2,6 +2,7 @@ package main
 
 import (
 	"bytes"
+	"strings"
 	"encoding/binary"
 
 	"github.com/WICG/webpackage/go/signedexchange/mice"
@@ -208,6 +209,11 @@ func genC15(r *Rng, tier string) []Case {
 			dec(d, stream, dg+"\n", 16384, pick(), "plain")
 			dec(d, stream, dg[:len(dg)-1], 16384, pick(), "plain")
 			dec(1-d, stream, dg, 16384, pick(), "plain")
+			// digest header values with no "=", nothing after it, nothing before it, the bare algorithm name
+			alg := []string{"mi-sha256-draft2", "mi-sha256-03"}[d]
+			for _, v := range []string{alg, alg + "=", "=", "", "=" + dg, alg + "==", strings.ToUpper(alg) + dg[len(alg):], alg[:len(alg)-1], alg + " " + dg[len(alg):], " " + dg, dg + " ", "sha-256" + dg[len(alg):], alg + ";" + dg[len(alg)+1:]} {
+				dec(d, stream, v, 16384, pick(), "plain")
+			}
 		}
 		// two decoders alive at the same time (hidden shared state would show here)
 		for i := 0; i < 40; i++ {
